@@ -50,6 +50,28 @@ def regen_static_len(ctx):
 GENERATORS = list(globals().get("GENERATORS", [])) + [regen_static_len]
 
 
+# --- tie of kind (1) (task W20): Gen/CodecRequired.lean is regenerated from the `is_required` properties of the seven parameter classes
+# the codec model knows and from composite_codec_get_required_parameters, and proved equal to the hand-written PKind.required / its
+# filter (Proofs/CodecRequiredGenEq.lean)
+LEAN_TARGETS = LEAN_TARGETS + ["OdxVerif.Props.C08GenRequired"]
+THEOREMS = THEOREMS + ["OdxVerif.Codec." + t for t in ["gen_isRequired_eq", "gen_required_eq", "gen_required_eq_all", "gen_required_raises",
+                                                       "C08_gen_required", "C08_gen_required_omission_fails"]]
+TRUSTED = TRUSTED + ["translator harness/extract/py2lean.py + primitives lean/OdxVerif/Model/PyRt.lean for <Class>.is_required (CodedConst, "
+                     "PhysicalConstant, Value, Reserved, MatchingRequest, NrcConst, LengthKey) and composite_codec_get_required_parameters; "
+                     "the dispatch of p.is_required on the class of p is the hand-written table Gen.isRequiredE (class <-> constructor of PKind; "
+                     "classes outside the model are a parameter of the rendering); ValueParameter._physical_default_value = the default of PKind.value"]
+
+
+def regen_required(ctx):
+    """Gen/CodecRequired.lean from the current source; Unsupported (source left the translator's subset) = broken obligation"""
+    import common
+    from extract import py2lean
+    py2lean.regenerate_required(common.REPO, common.VERIF)
+
+
+GENERATORS = list(globals().get("GENERATORS", [])) + [regen_required]
+
+
 def corpus():
     u8, val, C = D.u8, D.value, D.Composite
     out = []
@@ -293,3 +315,13 @@ EXTRA_LEAN_TARGETS = EXTRA_LEAN_TARGETS + [NESTED_TARGET]
 NESTED_THEOREMS = NESTED_THEOREMS + ["OdxVerif.Codec." + t for t in [
     "C08_static_length_bytesize", "C08_dynamic_kinds_none", "C08_required_iff_not_omittable2", "C08_required_nested2",
     "C08_required_nested_depth2", "C08_not_required_nested2", "DDesc.structBS_cursor", "DDesc.structBS_okW", "DescribedP2.fill_none"]]
+
+
+# --- W20: the GENERATED is_required family against PKind.required of the nested tier. OdxVerif.Props.C08GenRequiredNested imports
+# Props.C08Nested2 (and Proofs/CodecRequiredGenEq.lean), so it takes its place as the separately built + audited module: audit_nested
+# builds it (which builds C08Nested2 and C08Nested) and prints the axioms of all their theorems in that one environment. The generator
+# regen_required (above, earlier in GENERATORS) has rewritten Gen/CodecRequired.lean from the current source before this build.
+NESTED_TARGET = "OdxVerif.Props.C08GenRequiredNested"
+EXTRA_LEAN_TARGETS = EXTRA_LEAN_TARGETS + [NESTED_TARGET]
+NESTED_THEOREMS = NESTED_THEOREMS + ["OdxVerif.Codec." + t for t in [
+    "PKind.isRequired_eq_required", "C08_gen_required_nested", "C08_gen_required_iff_not_omittable"]]
